@@ -1,4 +1,5 @@
 import ParolModel.Proofs.LfOrder
+import ParolModel.Model.TransformProto
 /-! Termination of left factoring (C10): the sum, over all pairs of rules of one non-terminal, of
 the length of their longest common prefix (`lfMeasure`) strictly decreases with every
 `factor_out_prefix` step that factors a non-empty prefix shared by at least two rules — which is
@@ -574,5 +575,24 @@ theorem leftFactorLoop_none_of_always_modified {ord : GroupOrd}
     obtain ⟨rs1, h1⟩ := htot rs
     simp only [leftFactorLoop, h1]
     exact leftFactorLoop_none_of_always_modified htot n rs1
+
+/-! ## the driver's fuel -/
+
+theorem lfFuel_foldl (rs : List RuleN) : ∀ a : Nat,
+    rs.foldl (fun acc r => acc + r.rhs.length + 1) a = a + totalLen rs + rs.length := by
+  induction rs with
+  | nil => intro a; simp [totalLen]
+  | cons r rs ih =>
+    intro a
+    simp only [List.foldl_cons, ih, totalLen, List.map_cons, List.sum_cons, List.length_cons]
+    omega
+
+theorem lfFuel_ge (rs : List RuleN) : rs.length * totalLen rs + 1 ≤ lfFuel rs := by
+  unfold lfFuel
+  rw [lfFuel_foldl, Nat.zero_add]
+  have h : rs.length * totalLen rs ≤ (rs.length + 1) * (totalLen rs + rs.length) :=
+    Nat.mul_le_mul (Nat.le_succ _) (Nat.le_add_right _ _)
+  rw [Nat.mul_comm (rs.length + 1)] at h
+  omega
 
 end ParolModel
